@@ -358,6 +358,16 @@ Proof.
         destruct (sp_top [] (rget sm (svar v))) as [o1 r1]. cbn [fst snd] in *.
         split; [split; assumption|]. split; [exact HP | exact HS].
       * split; [split; assumption|]. cbn. split; [reflexivity | discriminate].
+  - (* middleware: wrap *)
+    unfold step_ok. cbn [step sstep].
+    destruct (Forall2_nth _ _ _ _ _ c HF) as [[E1 E2] | [m [sm [E1 [E2 Hrel]]]]]; rewrite E1, E2; cbn [fst snd].
+    + repeat split; try assumption; discriminate.
+    + repeat split; try assumption; discriminate.
+  - (* middleware: iterable dropped *)
+    unfold step_ok. cbn [step sstep].
+    destruct (Forall2_nth _ _ _ _ _ c HF) as [[E1 E2] | [m [sm [E1 [E2 Hrel]]]]]; rewrite E1, E2; cbn [fst snd].
+    + repeat split; try assumption; discriminate.
+    + repeat split; try assumption; discriminate.
 Qed.
 End World.
 
@@ -431,6 +441,8 @@ Proof.
   - destruct (nth_error (sw_ctx sw) c); cbn; [apply nth_error_app1; assumption | reflexivity].
   - destruct (nth_error (sw_ctx sw) c); reflexivity.
   - destruct (nth_error (sw_prox sw) i); [destruct (nth_error (sw_ctx sw) c)|]; reflexivity.
+  - destruct (nth_error (sw_ctx sw) c); reflexivity.
+  - destruct (nth_error (sw_ctx sw) c); reflexivity.
 Qed.
 
 (* ---- transferred to the implementation world *)
@@ -580,3 +592,8 @@ Lemma views_differ :
   view (fst (run gen_methods leak_schedule)) 1 (lvar 0) = Some (Some (ODict [(1, 7); (2, 9)]%N)) /\
   view (fst (run gen_methods leak_schedule)) 1 (svar 0) = Some (Some (OList [5; 6]%N)).
 Proof. vm_compute. repeat split. Qed.
+
+(* wrapping a response with the middleware, or discarding the wrapped iterable, changes nothing in any context *)
+Lemma mw_no_effect : forall M w c,
+  fst (step M w (c, OpMwOpen)) = w /\ fst (step M w (c, OpMwDrop)) = w.
+Proof. intros M w c. cbn [step]. destruct (nth_error (w_ctx w) c); split; reflexivity. Qed.
